@@ -6,8 +6,12 @@ namespace H2.Server.Abs.Limits
 def Within (st : St) (s : Strm) : Prop :=
   s.dead = false → (st.maxBody > 0 → s.body ≤ st.maxBody) ∧ (st.maxHdr > 0 → (s.hdr : Int) ≤ st.maxHdr) ∧ s.body ≤ s.recv
 
+/-- the octets of an unfinished field a stream holds are within `heldFactor` times the list limit -/
+def HeldOK (st : St) (s : Strm) : Prop := st.maxHdr > 0 → (s.held : Int) ≤ (heldFactor : Int) * st.maxHdr
+
 structure Inv (st : St) : Prop where
   tbl : ∀ s ∈ st.tbl, Within st s
+  held : ∀ s ∈ st.tbl, HeldOK st s
   handed : ∀ id b h, Rec.handed id b h ∈ st.trace →
     (st.maxBody > 0 → b ≤ st.maxBody) ∧ (st.maxHdr > 0 → (h : Int) ≤ st.maxHdr)
 
@@ -58,6 +62,14 @@ theorem mem_del {id : Nat} : ∀ {l : List Strm} {y : Strm}, y ∈ del id l → 
       · exact h ▸ List.mem_cons_self
       · exact List.mem_cons_of_mem _ (ih h)
 
+/-- an in-place update that keeps `held` keeps the bound on it -/
+theorem held_upd {st : St} {f : Strm → Strm} {id : Nat} (hf : ∀ x, (f x).held = x.held)
+    (hk : ∀ s ∈ st.tbl, HeldOK st s) : ∀ y ∈ upd f id st.tbl, st.maxHdr > 0 → (y.held : Int) ≤ (heldFactor : Int) * st.maxHdr := by
+  intro y hy
+  rcases mem_upd hy with hy | ⟨x, hx, e⟩
+  · exact hk y hy
+  · subst e; rw [hf]; exact hk x (get_mem hx)
+
 theorem handed_append_other {st : St} {r : Rec} (hr : ∀ id b h, r ≠ .handed id b h)
     (hh : ∀ id b h, Rec.handed id b h ∈ st.trace → (st.maxBody > 0 → b ≤ st.maxBody) ∧ (st.maxHdr > 0 → (h : Int) ≤ st.maxHdr)) :
     ∀ id b h, Rec.handed id b h ∈ st.trace ++ [r] → (st.maxBody > 0 → b ≤ st.maxBody) ∧ (st.maxHdr > 0 → (h : Int) ≤ st.maxHdr) := by
@@ -68,28 +80,33 @@ theorem handed_append_other {st : St} {r : Rec} (hr : ∀ id b h, r ≠ .handed 
   · exact absurd hm.symm (hr id b h)
 
 theorem step_inv {st : St} (e : Ev) (hi : Inv st) : Inv (step st e) := by
-  obtain ⟨ht, hh⟩ := hi
+  obtain ⟨ht, hk, hh⟩ := hi
   cases e with
   | opened id =>
-    refine ⟨?_, hh⟩
-    intro s hs
-    simp only [step, List.mem_append, List.mem_singleton] at hs
-    rcases hs with hs | hs
-    · exact ht s hs
-    · subst hs; intro _; refine ⟨fun _ => Nat.zero_le _, fun h => ?_, Nat.le_refl _⟩; simp only [step] at h ⊢; omega
+    refine ⟨?_, ?_, hh⟩
+    · intro s hs
+      simp only [step, List.mem_append, List.mem_singleton] at hs
+      rcases hs with hs | hs
+      · exact ht s hs
+      · subst hs; intro _; refine ⟨fun _ => Nat.zero_le _, fun h => ?_, Nat.le_refl _⟩; simp only [step] at h ⊢; omega
+    · intro s hs
+      simp only [step, List.mem_append, List.mem_singleton] at hs
+      rcases hs with hs | hs
+      · exact hk s hs
+      · subst hs; intro h; simp only [step, heldFactor] at h ⊢; omega
   | hdrBytes id n =>
     simp only [step]
     split
-    · exact ⟨ht, hh⟩
+    · exact ⟨ht, hk, hh⟩
     · rename_i s hg
       split
-      · refine ⟨?_, handed_append_other (by intro _ _ _ h; cases h) hh⟩
+      · refine ⟨?_, held_upd (fun _ => rfl) hk, handed_append_other (by intro _ _ _ h; cases h) hh⟩
         intro y hy
         rcases mem_upd hy with hy | ⟨x, _, e⟩
         · exact ht y hy
         · subst e; intro hd; cases hd
       · rename_i hlim
-        refine ⟨?_, hh⟩
+        refine ⟨?_, held_upd (fun _ => rfl) hk, hh⟩
         intro y hy
         rcases mem_upd hy with hy | ⟨x, hx, e⟩
         · exact ht y hy
@@ -100,19 +117,47 @@ theorem step_inv {st : St} (e : Ev) (hi : Inv st) : Inv (step st e) := by
           intro hpos
           simp only [not_and, Int.not_lt] at hlim
           exact hlim hpos
+  | hdrTail id n =>
+    simp only [step]
+    split
+    · exact ⟨ht, hk, hh⟩
+    · rename_i s hg
+      split
+      · refine ⟨?_, ?_, handed_append_other (by intro _ _ _ h; cases h) hh⟩
+        · intro y hy
+          rcases mem_upd hy with hy | ⟨x, _, e⟩
+          · exact ht y hy
+          · subst e; intro hd; cases hd
+        · intro y hy
+          rcases mem_upd hy with hy | ⟨x, _, e⟩
+          · exact hk y hy
+          · subst e; intro h; simp only [heldFactor] at h ⊢; omega
+      · rename_i hlim
+        refine ⟨?_, ?_, hh⟩
+        · intro y hy
+          rcases mem_upd hy with hy | ⟨x, hx, e⟩
+          · exact ht y hy
+          · subst e; exact ht x (get_mem hx)
+        · intro y hy
+          rcases mem_upd hy with hy | ⟨x, _, e⟩
+          · exact hk y hy
+          · subst e
+            intro hpos
+            simp only [fieldTooLong, Bool.and_eq_true, decide_eq_true_eq, not_and, Int.not_lt] at hlim
+            exact hlim hpos
   | data id n =>
     simp only [step]
     split
-    · exact ⟨ht, hh⟩
+    · exact ⟨ht, hk, hh⟩
     · rename_i s hg
       split
-      · refine ⟨?_, handed_append_other (by intro _ _ _ h; cases h) hh⟩
+      · refine ⟨?_, held_upd (fun _ => rfl) hk, handed_append_other (by intro _ _ _ h; cases h) hh⟩
         intro y hy
         rcases mem_upd hy with hy | ⟨x, _, e⟩
         · exact ht y hy
         · subst e; intro hd; cases hd
       · rename_i hlim
-        refine ⟨?_, hh⟩
+        refine ⟨?_, held_upd (fun _ => rfl) hk, hh⟩
         intro y hy
         rcases mem_upd hy with hy | ⟨x, hx, e⟩
         · exact ht y hy
@@ -126,12 +171,12 @@ theorem step_inv {st : St} (e : Ev) (hi : Inv st) : Inv (step st e) := by
   | dispatch id =>
     simp only [step]
     split
-    · exact ⟨ht, hh⟩
+    · exact ⟨ht, hk, hh⟩
     · rename_i s hg
       split
-      · exact ⟨ht, hh⟩
+      · exact ⟨ht, hk, hh⟩
       · rename_i hd
-        refine ⟨ht, ?_⟩
+        refine ⟨ht, hk, ?_⟩
         intro i b h hm
         simp only [List.mem_append, List.mem_singleton] at hm
         rcases hm with hm | hm
@@ -140,7 +185,7 @@ theorem step_inv {st : St} (e : Ev) (hi : Inv st) : Inv (step st e) := by
           subst e2; subst e3
           have hw := ht s (get_mem hg) (by simpa using hd)
           exact ⟨hw.1, hw.2.1⟩
-  | close id => exact ⟨fun s hs => ht s (mem_del hs), hh⟩
+  | close id => exact ⟨fun s hs => ht s (mem_del hs), fun s hs => hk s (mem_del hs), hh⟩
 
 theorem run_inv (evs : List Ev) : ∀ st, Inv st → Inv (run st evs) := by
   induction evs with
